@@ -288,8 +288,9 @@ theorem rawE_aggCmpText (a : Agg) (v : String) (h : aggCmpText a = .ok v) : rawE
     | ok ns =>
       simp [hp, bind, Except.bind, pure, Except.pure] at h
       subst h
+      unfold Units.f64Text
       rw [b_append]
-      exact rawE_intText_word ns _ aw_zeros
+      exact rawE_intText_word _ _ aw_zeros
   · split at h
     · simp [throw, throwThe, MonadExceptOf.throw] at h
     · simp [pure, Except.pure] at h
